@@ -7,12 +7,13 @@
 
 use crate::ast::token_range::WithTokenSpan;
 use crate::ast::{
-    Signature, SubprogramDeclaration, SubprogramHeader, SubprogramInstantiation,
+    InterfaceList, Signature, SubprogramDeclaration, SubprogramHeader, SubprogramInstantiation,
     SubprogramSpecification,
 };
 use crate::formatting::buffer::Buffer;
 use crate::formatting::VHDLFormatter;
-use crate::{HasTokenSpan, TokenSpan};
+use crate::syntax::Kind;
+use crate::{HasTokenSpan, TokenAccess, TokenSpan};
 use vhdl_lang::ast::{FunctionSpecification, ProcedureSpecification, SubprogramBody};
 use vhdl_lang::indented;
 
@@ -61,6 +62,8 @@ impl VHDLFormatter<'_> {
             if specification.header.is_some() {
                 buffer.increase_indent();
                 buffer.line_break();
+            } else {
+                self.format_parameter_keyword_separator(parameter, buffer);
             }
             self.format_interface_list(parameter, buffer);
             if specification.header.is_some() {
@@ -86,6 +89,9 @@ impl VHDLFormatter<'_> {
             self.format_subprogram_header(header, buffer);
         }
         if let Some(parameter) = &specification.parameter_list {
+            if specification.header.is_none() {
+                self.format_parameter_keyword_separator(parameter, buffer);
+            }
             self.format_interface_list(parameter, buffer);
         }
         buffer.push_whitespace();
@@ -104,6 +110,14 @@ impl VHDLFormatter<'_> {
         }
         buffer.push_whitespace();
         self.format_name(specification.return_type.as_ref(), buffer);
+    }
+
+    /// A parameter list is written directly behind the designator, i.e., `foo(`.
+    /// The optional `parameter` keyword, however, must be set apart from the designator.
+    fn format_parameter_keyword_separator(&self, parameter: &InterfaceList, buffer: &mut Buffer) {
+        if self.tokens.index(parameter.span.start_token).kind == Kind::Parameter {
+            buffer.push_whitespace();
+        }
     }
 
     pub fn format_subprogram_header(&self, header: &SubprogramHeader, buffer: &mut Buffer) {
@@ -238,6 +252,28 @@ procedure foo(
         check_subprogram_declaration(
             "\
 function foo(
+    a: std_logic
+) return std_logic;",
+        );
+    }
+
+    #[test]
+    fn test_subprogram_declaration_with_parameter_keyword() {
+        check_subprogram_declaration(
+            "\
+procedure foo parameter (
+    a: std_logic
+);",
+        );
+        check_subprogram_declaration(
+            "\
+function foo parameter (
+    a: std_logic
+) return std_logic;",
+        );
+        check_subprogram_declaration(
+            "\
+function \"+\" parameter (
     a: std_logic
 ) return std_logic;",
         );
